@@ -18,6 +18,10 @@ from simkit.util import Inconclusive
 NEVER = float(0xFFFFFFFF)
 
 
+class StateRaised(Exception):
+    """The state function that was just called raised (injected fault); the iteration is abandoned there."""
+
+
 class SMModel:
     def __init__(self, cfg, durations, clock, exact=True, asm=False, hooks=None):
         # hooks (optional): an object with on_call(state, tm, state_tm, initial, in_engagement, started) -> action or None
@@ -44,6 +48,8 @@ class SMModel:
         self.cs = ""                  # current_state as shown to the dashboard
         self.asm_engaged = False
         self.ever_enabled = False
+        self.loose = False            # a transition was requested after the machine had stopped, in the same call:
+        #                               what current_state shows until the next stop / start is not specified
         self.events = []
 
     def take(self):
@@ -81,11 +87,14 @@ class SMModel:
 
     def done(self):
         self._done()
+        self.loose = False
 
     def on_disable(self):
         self._done()
+        self.loose = False
 
     def on_enable(self):           # AutonomousStateMachine
+        self.loose = False
         self.asm_engaged = True
         self.ever_enabled = True
 
@@ -97,7 +106,8 @@ class SMModel:
 
     def execute(self, acts):
         """One control-loop iteration.  acts: list consumed front to back, one
-        entry per state function invoked: (action, target, stall_us)."""
+        entry per state function invoked: (action, target, stall_us[, raises]);
+        action "seq" carries a list of (action, target) pairs performed one after the other in the same call."""
         now = self.clock()
         started = False
         if not self.executing:
@@ -166,17 +176,31 @@ class SMModel:
             if st == self.default:
                 act = None
             if act:
-                a, target, stall = act
+                a, target, stall = act[0], act[1], act[2]
+                boom = len(act) > 3 and bool(act[3])
                 # (the stall itself is applied by the caller's clock: see engine)
                 if stall:
                     self.clock(stall)
-                if a == "next" and target in self.states:
-                    self._enter(target)
-                elif a == "now" and target in self.states:
-                    self._enter(target)
-                    self.execute(acts)
-                elif a == "done":
-                    self._done()
+                for n1, (a1, t1) in enumerate(target if a == "seq" else [(a, target)]):
+                    if n1 and not self.executing:
+                        if not self.asm:
+                            break          # a state function of a plain machine does nothing more once its machine stopped
+                        if a1 in ("next", "now") and t1 in self.states:
+                            self.loose = True
+                    if a1 == "next" and t1 in self.states:
+                        self._enter(t1)
+                    elif a1 == "now" and t1 in self.states:
+                        self._enter(t1)
+                        # the nested iteration is part of this one: it does not use up the engagement request
+                        # (unless it stopped the machine)
+                        req = self.req
+                        self.execute(acts)
+                        self.req = req and self.executing
+                    elif a1 == "done":
+                        self._done()
+                if boom:
+                    # the state function raises after doing the above: nothing else of this iteration happens
+                    raise StateRaised(st)
         elif not stopped_here:
             self._done()
 
